@@ -191,18 +191,24 @@ def exit_model_validation(ctx):
     root = shadow_root(ctx.pool.scratch)
     _rr = _real_run
 
-    def _real_run_shadow(args, **kw):
-        return _rr(args, cwd=root, **kw)
+    def _real_run_shadow(args, env_extra=None, **kw):
+        # the shadow root is not a git repository; make that explicit and machine-independent,
+        # and tell the simulated side the same thing (git exits 128 unless a case says otherwise)
+        e = {"GIT_DIR": "/nonexistent-dir/.git", "GIT_CEILING_DIRECTORIES": "/"}
+        e.update(env_extra or {})
+        return _rr(args, cwd=root, env_extra=e, **kw)
 
     cases = []
     base_sel = {"units": ["meters", "seconds"] if "meters" in ctx.tree.units else ctx.tree.units[:2], "constants": [], "io": True, "version_id": "X", "main_files": [], "opt_order": ["units", "constants", "noio", "version"]}
     args = _env.argv_of(base_sel)
 
     def simulate(env_over, faults, sel=None):
-        plan = {"seed": 0, "run": "exitmodel", "hashseed": 0, "selection": sel or base_sel, "env": dict({"listdir": {}, "extra_entries": {}, "clock": ["2026-01-01T00:00:00"], "git": "ok:x", "stdout_mode": "block"}, **env_over), "faults": [], "toolchain": {"a": ["g++", "c++14"]}, "probe": {}}
+        plan = {"seed": 0, "run": "exitmodel", "hashseed": 0, "selection": sel or base_sel, "env": dict({"listdir": {}, "extra_entries": {}, "clock": ["2026-01-01T00:00:00"], "git": "exit128", "git_repo": "norepo", "stdout_mode": "block"}, **env_over), "faults": [], "toolchain": {"a": ["g++", "c++14"]}, "probe": {}}
         tres, tdata = ctx.pool.run(plan)
-        if not faults and env_over.get("git", "ok:x").startswith("ok"):
+        if not faults:
             return tres, tdata
+        if tres["status"] != 0 or tres["hang"]:
+            return tres, tdata  # nothing to resolve faults against: the plain run already fails
         fplan = copy.deepcopy(plan)
         fplan["faults"] = faults
         return ctx.pool.run(fplan, twin=_env.footprint(tres))
@@ -258,7 +264,7 @@ def exit_model_validation(ctx):
     # 8. bad usage: argparse exits 2
     sel4 = dict(base_sel)
     r = _real_run_shadow(["--no-such-option"], stdout=subprocess.PIPE)
-    plan4 = {"seed": 0, "run": "exitmodel", "hashseed": 0, "selection": dict(base_sel, argv=["--no-such-option"]), "env": {"listdir": {}, "extra_entries": {}, "clock": ["2026-01-01T00:00:00"], "git": "ok:x", "stdout_mode": "block"}, "faults": [], "toolchain": {"a": ["g++", "c++14"]}, "probe": {}}
+    plan4 = {"seed": 0, "run": "exitmodel", "hashseed": 0, "selection": dict(base_sel, argv=["--no-such-option"]), "env": {"listdir": {}, "extra_entries": {}, "clock": ["2026-01-01T00:00:00"], "git": "exit128", "git_repo": "norepo", "stdout_mode": "block"}, "faults": [], "toolchain": {"a": ["g++", "c++14"]}, "probe": {}}
     s, d = ctx.pool.run(plan4)
     cases.append({"case": "usage error", "real": r.returncode, "sim": s["status"]})
     agreed = 0
